@@ -13,7 +13,7 @@ CONSTANTS MaxLenP = 4
           Memo = FALSE
           Emit = TRUE
 INIT Init
-NEXT NextGen
+NEXT NextSim
 INVARIANT PShape
 INVARIANT PNoCross
 INVARIANT PIdem
